@@ -15,15 +15,23 @@ BASE = os.path.join(os.path.dirname(os.path.dirname(os.path.abspath(__file__))),
 
 
 def one(args):
-    pid, name = args
+    pid, name = args[0], args[1]
+    check_pid = args[2] if len(args) > 2 else pid
+    r = _one(pid, name, check_pid)
+    return (r[0] if check_pid == pid else "%s@%s" % (pid, check_pid),) + r[1:]
+
+
+def _one(pid, name, check_pid):
     d = os.path.join(BASE, pid, name)
     meta = json.load(open(os.path.join(d, "meta.json")))
     kind = "benign" if meta.get("kind") == "benign" else "break"
+    own = pid
+    pid = check_pid
     mod = importlib.import_module("sa.props.%s" % pid.lower())
     try:
         ov = selftest.apply_patch(ROOT, open(os.path.join(d, "patch.diff")).read())
     except selftest.PatchError as e:
-        return pid, name, kind, "STALE", str(e)
+        return own, name, kind, "STALE", str(e)
     base = core.Result(pid)
     mod.run(core.Repo(ROOT), base, "quick")
     keys = {f.key for f in base.findings}
@@ -34,18 +42,19 @@ def one(args):
         if not new:
             res.verify_instance_counts()
     except core.AnalysisError as e:
-        return pid, name, kind, "REFUSED", str(e)[:160]
+        return own, name, kind, "REFUSED", str(e)[:160]
     except Exception as e:
         import traceback
 
-        return pid, name, kind, "CRASH", traceback.format_exc()[-300:]
+        return own, name, kind, "CRASH", traceback.format_exc()[-300:]
     if kind == "break":
-        return pid, name, kind, "caught" if new else "MISSED", (str(new[0])[:160] if new else "")
-    return pid, name, kind, "FALSE-ALARM" if new else "silent", (str(new[0])[:160] if new else "")
+        return own, name, kind, "caught" if new else "MISSED", (str(new[0])[:160] if new else "")
+    return own, name, kind, "FALSE-ALARM" if new else "silent", (str(new[0])[:160] if new else "")
 
 
 def main():
-    pids = sys.argv[1:] or sorted(os.listdir(BASE))
+    cross = "--cross" in sys.argv
+    pids = [a for a in sys.argv[1:] if not a.startswith("-")] or sorted(os.listdir(BASE))
     jobs = []
     for pid in pids:
         if not os.path.isdir(os.path.join(BASE, pid)):
@@ -53,6 +62,9 @@ def main():
         for name in sorted(os.listdir(os.path.join(BASE, pid))):
             if os.path.exists(os.path.join(BASE, pid, name, "patch.diff")):
                 jobs.append((pid, name))
+                if cross and name.startswith("benign"):
+                    # a behaviour-preserving change must leave *every* check silent, not only its own property's
+                    jobs += [(pid, name, "C%02d" % k) for k in range(1, 21) if "C%02d" % k != pid]
     with ProcessPoolExecutor(max_workers=16) as ex:
         rows = list(ex.map(one, jobs))
     tally = {}
